@@ -89,7 +89,7 @@ def work(ctx, tier):
     m = (600 if tier == "quick" else 15000) // ctx.nshards
     for k in range(m):
         sc = gen.rand_scenario(rng, p_special=0.0, p_budget=0.2, p_handler=0.3, p_abort=0.0)
-        sc["fault"] = {"kind": "cb", "cb": rng.choice(PROPAGATING_CBS), "at": rng.randint(0, 2), "exc": rng.choice(["RuntimeError", "ValueError", "KeyError"])}
+        sc["fault"] = {"kind": "cb", "cb": rng.choice(PROPAGATING_CBS), "at": rng.randint(0, 2), "exc": rng.choice(gen.CB_EXCS)}
         for e in common.pick_entries(rng, entries, 2):
             _one(ctx, sc, e, stats)
         ctx.inc("callback_fault_scenarios")
